@@ -168,12 +168,29 @@ def child_sym(mod, cfg, schedule, opts, findings):
 
     E = core.ENGINE
     t0 = time.time()
+    # ---- "used process": the same harness body first runs once on seeded CONSTANTS through the instrumented
+    # code (claims ignored), so that module-, class- and default-instance-level state of the library is no
+    # longer pristine when the symbolic run starts.  A cache keyed too coarsely then feeds constants of the
+    # warm-up into a run whose inputs are symbols, and the claims fail.  The warm-up inputs travel with every
+    # counterexample so that the plain replay warms up the same way.
+    warm = None
+    wmode = opts.get("warmup", "all")
+    if wmode and not (wmode == "first" and schedule):
+        wcfg = mod.warmup_cfg(cfg) if hasattr(mod, "warmup_cfg") else cfg
+        if wcfg is not None:
+            try:
+                rw = child_const(mod, wcfg, seed=4242)
+                warm = dict(cfg=wcfg, values=rw.get("drawn"), status=rw.get("status"))
+            except BaseException as e:  # noqa: BLE001
+                warm = dict(cfg=wcfg, values=None, status=f"crash {type(e).__name__}")
+            E.const_mode = False
+            E.active = False
     api.reset("sym")
     E.reset(schedule)
     E.timeout_ms = opts.get("branch_timeout_ms", 3000)  # branch feasibility: unknown => both sides explored
     E.structure_value_dependent = False
     loader.ENTERED.clear()
-    res = dict(status="ok", claims=[], pending=[], notes=[], error=None)
+    res = dict(status="ok", claims=[], pending=[], notes=[], error=None, warmup=warm)
     E.active = True
     try:
         if hasattr(mod, "prepare"):
@@ -790,7 +807,7 @@ def run_check(modname, tier, seed, only=None, mutations=None, write_evidence=Tru
         tried = []
         for (sched2, e2) in lst[:3]:
             for mv in e2["models"]:
-                rp = plain.call(dict(cfg=configs[i], values=mv, seed=seed))
+                rp = plain.call(dict(cfg=configs[i], values=mv, seed=seed, warmup=e2.get("warmup")))
                 replayed += 1
                 ok = _replay_shows(rp, cname)
                 tried.append(dict(values=mv, result=rp.get("status"), claims=[c for c in rp.get("claims", []) if not c[1]][:5], error=rp.get("error")))
@@ -814,7 +831,7 @@ def run_check(modname, tier, seed, only=None, mutations=None, write_evidence=Tru
             rid = hashlib.sha256((cfg_key(configs[i]) + cname).encode()).hexdigest()[:10]
             rpath = os.path.join(VERIF, "replays", f"{prop}-{rid}.json")
             os.makedirs(os.path.dirname(rpath), exist_ok=True)
-            json.dump(dict(property=prop, check=modname, cfg=configs[i], claim=cname, values=mv, values_float={k: _to_float(v) for k, v in mv.items()}, plain_result=rp, mutations=mutations, how="./check %s --replay %s" % (prop, rpath)), open(rpath, "w"), indent=1)
+            json.dump(dict(property=prop, check=modname, cfg=configs[i], claim=cname, warmup=lst[0][1].get("warmup"), values=mv, values_float={k: _to_float(v) for k, v in mv.items()}, plain_result=rp, mutations=mutations, how="./check %s --replay %s" % (prop, rpath)), open(rpath, "w"), indent=1)
             violations.append(dict(cfg=configs[i], claim=cname, replay=rpath, values=mv))
         else:
             harness_errors.append(f"counterexample did not reproduce on the plain import: cfg={cfg_key(configs[i])} claim={cname} tried={json.dumps(tried)[:600]}")
@@ -1014,6 +1031,7 @@ def _absorb(r, i, sched, configs, per_cfg, stats, all_claims, entered, samples, 
     for e in r["claims"]:
         if status == "exception":
             e["error"] = r.get("error")
+        e["warmup"] = r.get("warmup")
         all_claims.append((i, r.get("schedule", sched), e))
     if any(e["verdict"] == "sat" and not e.get("known") for e in r["claims"]):
         pcf["sat_paths"] = pcf.get("sat_paths", 0) + 1
@@ -1028,7 +1046,7 @@ def replay_file(path):
     d = json.load(open(path))
     modname = d["check"]
     pool = PlainPool(f"checks.{modname}", 1, d.get("mutations"))
-    rp = pool.call(dict(cfg=d["cfg"], values=d["values"], seed=d.get("seed", 0)))
+    rp = pool.call(dict(cfg=d["cfg"], values=d["values"], seed=d.get("seed", 0), warmup=d.get("warmup")))
     pool.close()
     print(json.dumps(rp, indent=1)[:4000])
     if _replay_shows(rp, d["claim"]):
